@@ -35,7 +35,8 @@ def gen_sysworld(rng, small=False):
     grid = rng.choice(["unit", "const", "uneven"])
     t = [2000 + i for i in range(nt)] if grid == "unit" else ([2000 + 5 * i for i in range(nt)] if grid == "const"
                                                                 else [1990, 1995, 2000, 2010, 2030][:nt])
-    dims = [{"letter": "t", "name": "Time", "items": t, "dtype": "int"}]
+    tl = rng.choice(["t", "t", "y"])  # the time dimension is not always lettered 't' (the default of StockDefinition.time_letter)
+    dims = [{"letter": tl, "name": "Time" if tl == "t" else "Year", "items": t, "dtype": "int"}]
     for letter in rng.sample("abce", rng.randint(1, 2 if small else 3)):
         n = rng.randint(1, 3)
         kind = rng.weighted([("str", 4), ("int", 4), ("float", 1)])
@@ -85,10 +86,10 @@ def gen_sysworld(rng, small=False):
     stocks = []
     for k in range(rng.randint(0, 2 if small else 3)):
         cls = rng.choice(list(CLS))
-        others = rng.subset([l for l in letters if l != "t"], 0, 2)
+        others = rng.subset([l for l in letters if l != tl], 0, 2)
         stocks.append({"name": STOCK_NAMES[k], "cls": cls, "lt": None if cls == "simple" else rng.choice(list(LT)),
                        "solver": rng.choice(["manual", "lapack"]), "process": rng.choice([None] + list(range(1, npr + 1))),
-                       "dims": ["t"] + others})
+                       "dims": [tl] + others})
     # ---- parameters
     params = []
     for k in range(rng.randint(0, 2 if small else 4)):
@@ -160,7 +161,9 @@ def make_definition(world, faults=()):
     stocks = []
     for k, s in enumerate(world["stocks"]):
         dl = tuple(s["dims"])
-        kw = {"name": s["name"], "dim_letters": dl, "subclass": CLS[s["cls"]], "time_letter": "t"}
+        kw = {"name": s["name"], "dim_letters": dl, "subclass": CLS[s["cls"]]}
+        if world["dims"][0]["letter"] != "t" or (alias + k) % 2:
+            kw["time_letter"] = world["dims"][0]["letter"]
         pkey = "process_name" if (alias + k) % 2 else "process"
         if s["process"] is not None:
             kw[pkey] = world["processes"][s["process"]]
